@@ -13,7 +13,8 @@ import Cellml.Units.OffsetLemmas
     3. `worklist_sound`, `den_functional`, `word_subst_correct`;
     4. `worklist_loadable` / `worklist_complete` / `worklist_perm`: success is characterised by conditions that do not
        mention the order, and the meaning of every name is the same in every order;
-    5. rejection theorems: duplicate, built-in override, offset, cycle, dangling reference.
+    5. rejection theorems: duplicate, built-in override, offset, cycle, dangling reference; the offset test is exact
+       (`offset_test_exact`) and a zero offset, however spelled, is the same as no offset (`zero_offsets_ignored`).
 
     Theorems whose name ends in `_partial` carry the hypothesis `GoodRefs` (every REFERENCED name starts with a letter
     or an underscore); the counterexample `digit_leading_reference_rejected` shows the hypothesis is needed on the
@@ -337,7 +338,8 @@ theorem reject_builtin_override (id : Nat) (defs : List UDef) (d : UDef) (hd : d
     (h : cellmlUnits.contains d.name = true) : ∃ e, addUnits id defs = .error e :=
   isError_of_not_loadable (fun hl => by rw [hl.notBuiltin d hd] at h; cases h)
 
-/-- a `<unit>` child whose offset fails the test `offset.strip().isnumeric() and int(offset) == 0` -/
+/-- a `<unit>` child whose offset fails the test of the source, `float(offset) == 0` (text that is not a number,
+    `nan`, `inf`, or a number whose binary64 value is not zero) -/
 theorem reject_offset (id : Nat) (defs : List UDef) (d : UDef) (hd : d ∈ defs) (hb : d.base = false)
     (e : UnitElem) (he : e ∈ d.elems) (o : String) (ho : e.offset = some o) (hbad : offsetRejected o = true) :
     ∃ err, addUnits id defs = .error err := by
@@ -346,11 +348,127 @@ theorem reject_offset (id : Nat) (defs : List UDef) (d : UDef) (hd : d ∈ defs)
   have h2 : d.elems.any elemOffsetBad = true := List.any_eq_true.mpr ⟨e, he, by simp [elemOffsetBad, ho, hbad]⟩
   rw [h1] at h2; cases h2
 
-/-- in particular every offset that denotes a non-zero number (the converse fails: `offset_zero_point_rejected`) -/
+/-- in particular every offset that denotes a number whose nearest double is not zero (`roundsToZero q = false`:
+    `2^-1075 < |q|`). The converse holds since the repair: `offset_test_exact`, `zero_offsets_ignored`. -/
 theorem reject_nonzero_offset (id : Nat) (defs : List UDef) (d : UDef) (hd : d ∈ defs) (hb : d.base = false)
     (e : UnitElem) (he : e ∈ d.elems) (o : String) (ho : e.offset = some o) (q : Rat)
-    (hq : Decimal.parse o = some q) (hne : q ≠ 0) : ∃ err, addUnits id defs = .error err :=
-  reject_offset id defs d hd hb e he o ho (nonzero_offset_rejected o q hq hne)
+    (hq : Decimal.parse o = some q) (hnz : roundsToZero q = false) : ∃ err, addUnits id defs = .error err :=
+  reject_offset id defs d hd hb e he o ho (nonzero_offset_rejected o q hq hnz)
+
+/-- … that is every non-zero number with a denominator below `2^1075`, e.g. every non-zero decimal with at most 323
+    digits after the point. (A non-zero text of magnitude ≤ `2^-1075` IS the float zero: `tiny_offset_is_float_zero`.) -/
+theorem reject_nonzero_offset_of_ne (id : Nat) (defs : List UDef) (d : UDef) (hd : d ∈ defs) (hb : d.base = false)
+    (e : UnitElem) (he : e ∈ d.elems) (o : String) (ho : e.offset = some o) (q : Rat)
+    (hq : Decimal.parse o = some q) (hne : q ≠ 0) (hden : q.den < 2 ^ 1075) : ∃ err, addUnits id defs = .error err :=
+  reject_nonzero_offset id defs d hd hb e he o ho q hq (roundsToZero_false_of_ne q hne hden)
+
+/-- the offset test refuses EXACTLY the offsets whose value is not the float zero: for every decimal text, with exact
+    value `q`, the test answers `!roundsToZero q`; a text that denotes zero always passes, in any spelling -/
+theorem offset_test_exact (o : String) (q : Rat) (hq : Decimal.parse o = some q) :
+    offsetRejected o = !roundsToZero q ∧ (q = 0 → offsetRejected o = false) ∧
+      (q.den < 2 ^ 1075 → (offsetRejected o = false ↔ q = 0)) :=
+  ⟨offsetRejected_decimal hq, fun h0 => zero_offset_accepted o (h0 ▸ hq),
+    fun hden => ⟨zero_of_offset_accepted o q hq hden, fun h0 => zero_offset_accepted o (h0 ▸ hq)⟩⟩
+
+/-! ### a zero offset, however spelled, is the same as no offset -/
+
+/-- the `<unit>` element without its `offset` attribute -/
+def dropOffset (e : UnitElem) : UnitElem := { e with offset := none }
+/-- the `<units>` element with the `offset` attributes of its children removed -/
+def dropOffsets (d : UDef) : UDef := { d with elems := d.elems.map dropOffset }
+
+theorem elemMeaning_dropOffset (id : Nat) (e : UnitElem) (h : elemOffsetBad e = false) :
+    elemMeaning id (dropOffset e) = elemMeaning id e := by
+  obtain ⟨u, pf, ex, mu, off⟩ := e
+  cases off with
+  | none => rfl
+  | some o =>
+    have ho : offsetRejected o = false := by simpa [elemOffsetBad] using h
+    simp [elemMeaning, dropOffset, ho]
+
+theorem defMeaning_dropOffsets (id : Nat) : ∀ (es : List UnitElem), es.any elemOffsetBad = false →
+    defMeaning id (es.map dropOffset) = defMeaning id es := by
+  intro es
+  induction es with
+  | nil => intro _; rfl
+  | cons e es ih =>
+    intro h
+    simp only [List.any_cons, Bool.or_eq_false_iff] at h
+    simp only [List.map_cons, defMeaning, elemMeaning_dropOffset id e h.1, ih h.2]
+
+theorem addNow_dropOffsets (reg : Registry) (st : Store) (d : UDef) (h : d.elems.any elemOffsetBad = false) :
+    addNow reg st (dropOffsets d) = addNow reg st d := by
+  have h1 : (d.elems.map dropOffset).any elemOffsetBad = false := by
+    rw [List.any_map]; exact List.any_eq_false.mpr (fun e _ => by simp [dropOffset, elemOffsetBad])
+  have h2 : refsResolve reg st (dropOffsets d) = refsResolve reg st d := by
+    simp [refsResolve, dropOffsets, List.all_map, Function.comp_def, dropOffset]
+  unfold addNow
+  rw [h2]
+  simp only [dropOffsets, h1, h, addUnit, defMeaning_dropOffsets st.id d.elems h]
+  rfl
+
+theorem loopFuel_dropOffsets : ∀ (fuel : Nat) (reg : Registry) (st : Store) (dq : List UDef) (it : Nat),
+    (∀ d ∈ dq, d.elems.any elemOffsetBad = false) →
+    loopFuel fuel reg st (dq.map dropOffsets) it = loopFuel fuel reg st dq it := by
+  intro fuel
+  induction fuel with
+  | zero => intros; rfl
+  | succ fuel ih =>
+    intro reg st dq it h
+    cases dq with
+    | nil => rfl
+    | cons d rest =>
+      have hd := h d List.mem_cons_self
+      have hr : ready st (dropOffsets d) = ready st d := by
+        simp [ready, dropOffsets, List.all_map, Function.comp_def, dropOffset]
+      have hsnoc : rest.map dropOffsets ++ [dropOffsets d] = (rest ++ [d]).map dropOffsets := by simp
+      simp only [List.map_cons, loopFuel, hr, addNow_dropOffsets reg st d hd, hsnoc, List.length_map]
+      have ih1 := fun reg' st' => ih reg' st' rest 0 (fun x hx => h x (List.mem_cons_of_mem _ hx))
+      have ih2 := ih reg st (rest ++ [d]) (it + 1) (fun x hx => by
+        rcases List.mem_append.mp hx with hx | hx
+        · exact h x (List.mem_cons_of_mem _ hx)
+        · rw [List.mem_singleton.mp hx]; exact hd)
+      simp only [ih1, ih2]
+
+theorem addBases_dropOffsets : ∀ (defs : List UDef) (reg : Registry) (st : Store),
+    addBases reg st (defs.map dropOffsets) = addBases reg st defs := by
+  intro defs
+  induction defs with
+  | nil => intros; rfl
+  | cons d ds ih =>
+    intro reg st
+    simp only [List.map_cons, addBases, dropOffsets, ih]
+
+theorem queue_dropOffsets (defs : List UDef) : queue (defs.map dropOffsets) = (queue defs).map dropOffsets := by
+  simp [queue, List.filter_map, Function.comp_def, dropOffsets]
+
+/-- FULL STRENGTH (the converse of `reject_offset`): in a document all of whose offsets pass the test - in particular
+    all of whose offsets denote zero, in whatever spelling (`zero_offset_accepted`) - the `offset` attributes have no
+    effect at all: same outcome, same registry, same store as for the document without them, in every order. -/
+theorem zero_offsets_ignored (id : Nat) (defs : List UDef)
+    (h : ∀ d ∈ defs, d.elems.any elemOffsetBad = false) :
+    addUnits id (defs.map dropOffsets) = addUnits id defs := by
+  have hf : addUnitsFuel id (defs.map dropOffsets) = addUnitsFuel id defs := by
+    unfold addUnitsFuel
+    rw [addBases_dropOffsets, queue_dropOffsets, List.length_map]
+    split
+    · rfl
+    · exact loopFuel_dropOffsets _ _ _ _ _ (fun d hd => by
+        have : d ∈ defs := by
+          have := List.mem_reverse.mp (by simpa [queue] using hd : d ∈ (defs.filter (fun d => !d.base)).reverse)
+          exact (List.mem_filter.mp this).1
+        exact h d this)
+  rw [worklist_terminates, worklist_terminates] at hf
+  exact Option.some.inj hf
+
+/-- the same in terms of what the attributes denote: every offset is decimal text for the number zero -/
+theorem zero_offsets_ignored_of_zero (id : Nat) (defs : List UDef)
+    (h : ∀ d ∈ defs, ∀ e ∈ d.elems, ∀ o, e.offset = some o → Decimal.parse o = some 0) :
+    addUnits id (defs.map dropOffsets) = addUnits id defs := by
+  refine zero_offsets_ignored id defs (fun d hd => List.any_eq_false.mpr (fun e he => ?_))
+  cases ho : e.offset with
+  | none => simp [elemOffsetBad, ho]
+  | some o => simp [elemOffsetBad, ho, zero_offset_accepted o (h d hd e he o ho)]
 
 /-- a reference to a name that is neither built-in nor defined in the document -/
 theorem reject_dangling (id : Nat) (defs : List UDef) (d : UDef) (hd : d ∈ defs) (hb : d.base = false)
@@ -440,7 +558,10 @@ example : ∃ e, addUnits 0 (chain ++ [⟨"volt", true, []⟩]) = .error e :=
   reject_builtin_override 0 _ ⟨"volt", true, []⟩ (by simp) (by decide +kernel)
 /-- non-zero offsets -/
 example : offsetRejected "273.15" = true ∧ offsetRejected "32" = true ∧ offsetRejected "-1" = true ∧
-    offsetRejected "0" = false ∧ offsetRejected " 00 " = false := by decide +kernel
+    offsetRejected "0.5" = true ∧ offsetRejected "1e-3" = true ∧ offsetRejected "" = true ∧
+    offsetRejected "0" = false ∧ offsetRejected " 00 " = false ∧ offsetRejected "0.0" = false ∧
+    offsetRejected "+0" = false ∧ offsetRejected "-0" = false ∧ offsetRejected "0.00" = false ∧
+    offsetRejected "0e0" = false ∧ offsetRejected "0." = false ∧ offsetRejected ".0" = false := by decide +kernel
 example : ∃ e, addUnits 0 (chain ++ [⟨"fahrenheit", false, [⟨"kelvin", none, none, some "0.5555", some "255.37"⟩]⟩]) =
     .error e :=
   reject_offset 0 _ ⟨"fahrenheit", false, [⟨"kelvin", none, none, some "0.5555", some "255.37"⟩]⟩ (by simp) rfl
@@ -448,6 +569,9 @@ example : ∃ e, addUnits 0 (chain ++ [⟨"fahrenheit", false, [⟨"kelvin", non
 example : ∃ e, addUnits 0 [⟨"celsius_like", false, [⟨"kelvin", none, none, none, some "-273.15"⟩]⟩] = .error e :=
   reject_nonzero_offset 0 _ _ List.mem_cons_self rfl ⟨"kelvin", none, none, none, some "-273.15"⟩ (by simp) _ rfl
     (-5463/20) (by decide +kernel) (by decide +kernel)
+example : ∃ e, addUnits 0 [⟨"celsius_like", false, [⟨"kelvin", none, none, none, some "-273.15"⟩]⟩] = .error e :=
+  reject_nonzero_offset_of_ne 0 _ _ List.mem_cons_self rfl ⟨"kelvin", none, none, none, some "-273.15"⟩ (by simp) _ rfl
+    (-5463/20) (by decide +kernel) (by decide +kernel) (by decide +kernel)
 /-- dangling reference -/
 example : ∃ e, addUnits 0 (⟨"x", false, [⟨"nosuchunit", none, none, none, none⟩]⟩ :: chain) = .error e :=
   reject_dangling 0 _ _ List.mem_cons_self rfl ⟨"nosuchunit", none, none, none, none⟩ (by simp) (by decide +kernel)
@@ -484,12 +608,13 @@ example : loadedMeaning 0 [
     ⟨"turns_per_s", false, [⟨"twopi", none, none, none, none⟩, ⟨"second", none, some "-1", none, none⟩]⟩]
     "turns_per_s" = some ([(5, -2), (157, 1)], [("second", -1)]) := by decide +kernel
 
-/-- `offset="0.0"` is zero, and rejected: the test is `isnumeric()`. Known finding
-    `valid-rejected:zero-offset-spelling`. -/
-theorem offset_zero_point_rejected :
-    Decimal.parse "0.0" = some 0 ∧ offsetRejected "0.0" = true ∧
-    addUnits 0 [⟨"degK", false, [⟨"kelvin", none, none, none, some "0.0"⟩]⟩] = .error (.valueError "offset") :=
-  ⟨by decide +kernel, by decide +kernel, error_of_fuel (by decide +kernel)⟩
+/-- `offset="0.0"` is zero and is accepted: `degK` is the kelvin. Before the repair the test was `isnumeric()` and the
+    document was refused (`Units.OldTest.zero_point_rejected`); finding `valid-rejected:zero-offset-spelling`, fixed. -/
+theorem offset_zero_point_accepted :
+    Decimal.parse "0.0" = some 0 ∧ offsetRejected "0.0" = false ∧ OldTest.offsetRejected "0.0" = true ∧
+    loadedMeaning 0 [⟨"degK", false, [⟨"kelvin", none, none, none, some "0.0"⟩]⟩] "degK" = some ([], [("kelvin", 1)]) ∧
+    ∃ r, addUnits 0 [⟨"degK", false, [⟨"kelvin", none, none, none, some "0.0"⟩]⟩] = .ok r :=
+  ⟨by decide +kernel, by decide +kernel, by decide +kernel, by decide +kernel, ok_of_fuel (by decide +kernel)⟩
 
 /-- `dimensionless` (carrying the multiplier) times a dimensional unit: the implementation loads the definition but
     the unit is unusable afterwards (pint `KeyError: ''`); the model marks the construct as outside its fragment.
